@@ -114,6 +114,8 @@ def stratified(vectors: List[Dict[str, Any]], cap: int, seed: int, key: Callable
 
 def default_key(v: Dict[str, Any]) -> str:
     e = v.get("expect", {})
+    if v.get("kind") == "model":
+        return "%s|%s" % (v.get("backend"), " ".join("%s%s" % (o[0][0], o[1]) for o in v["hist"]))
     if not isinstance(e, dict):
         if "hist" in v:
             return "%s|%s|%s|%s" % (v.get("kind"), json.dumps(v.get("env"), sort_keys=True),
